@@ -33,6 +33,7 @@ def events(ctx):
 def run(ctx):
     ctx.rule = RULE
     ctx.assumptions = ["adapters vp/ops_cfdp.py build/project PDUs by constructor calls and attribute reads only"]
+    ctx.symbolic_laws(['Law_PduOctets', 'Law_BigEndian32'])
     ctx.replay_vectors("MC_Codec", "MC_Codec.cfg", perform, "grid", classify, consts='CONSTANT Area = "fd"',
                        need_actions=("PickVector",))
     ctx.validate_events(events(ctx), "calls", classify, shard=1500)
